@@ -2,6 +2,7 @@
  * Defines: N (nodes), D (max neighbours), GRID (0 real profile grid, 1 table grid), BLMASK (bit i = node i is a
  * base level; concrete per query), USE_MASK (0 none, 1 concrete MASKBITS, 2 symbolic), TABLE (header with the adjacency table),
  * THREADS (0/1: sequential kernel; >1: apply_par, blocks executed one after the other in the caller's thread),
+ * ONLY_NODE (assert one node only: per-node decomposition for the larger tables),
  * EXCL_TINY (exclude the known-finding class "positive slope <= DBL_MIN"), LOOPED (profile: looped borders)
  */
 #include "fsv_harness.h"
@@ -76,6 +77,9 @@ void fsv_harness(void)
     sl[i * D + k] = s;
   }
   for (int i = 0; i < N; i++) {
+#ifdef ONLY_NODE
+    if (i != ONLY_NODE) continue;   /* per-node query: cone of influence of one node */
+#endif
     int base = (BLMASK >> i) & 1;
     FSV_ASSERT(rec[i] < N, "receiver index in range");
     FSV_ASSERT(rcount[i] == 1, "single receiver count");
